@@ -1,4 +1,6 @@
 """C16 — phasing: one correctly framed result per sequence for any thread count."""
+import sys
+
 from driver.common import Case
 from driver.props import c08_pool as P
 
@@ -228,8 +230,8 @@ def shrink(c):
 
 
 def check(tier, seed):
-    return P.pool_check(__import__("driver.props.c16", fromlist=["x"]), tier, seed)
+    return P.pool_check(sys.modules[__name__], tier, seed)
 
 
 def replay(path):
-    return P.pool_replay(__import__("driver.props.c16", fromlist=["x"]), path)
+    return P.pool_replay(sys.modules[__name__], path)
